@@ -95,7 +95,11 @@ def compiled_cross_check(case, projs, lays, failures):
             ys.append([10.0 ** case["yexp"][(i + k) % len(case["yexp"])] * (1.0 + 0.1 * i) for i in range(neq)])
             if proj.ints.get("IDX_TGAS") is not None:
                 ys[-1][proj.ints["IDX_TGAS"]] = 50.0 + 100.0 * k
-        text = "".join("y " + " ".join(float(v).hex() for v in y) + "\nrun\n" for y in ys)
+        # the second evaluation happens in the same process at another gas temperature (5 K: below the windows the
+        # generated reactions carry), as a second Solve / another cell would: nothing may survive from the first call
+        fields = R.data_fields(proj)
+        pvs = [dict(PV), dict(PV, Tgas=5.0)]
+        text = "".join("p " + " ".join(float(pv.get(f, 1.0 if dv is None else dv)).hex() for f, dv in fields.items()) + "\ny " + " ".join(float(v).hex() for v in y) + "\nrun\n" for y, pv in zip(ys, pvs))
         rc, out, err = build.run_driver(exe, text, proj.path)
         if rc != 0 or "AddressSanitizer" in err or "runtime error:" in err or "VT_BOUNDS" in err:
             kind = "asan" if "AddressSanitizer" in err else "ubsan" if "runtime error" in err else "bounds" if "VT_BOUNDS" in err else f"exit{rc}"
@@ -108,12 +112,12 @@ def compiled_cross_check(case, projs, lays, failures):
         slots = N.slot_of(case, proj)
         fex = proj.fex_polys()
         ent = lays[method]["entries"]
-        for y, b in zip(ys, blocks):
+        for y, b, pv in zip(ys, blocks, pvs):
             env = {f"y[{i}]": v for i, v in enumerate(y)}
             env.update({f"k[{i}]": v for i, v in enumerate(b["K"])})
             env.update({f"kh[{i}]": v for i, v in enumerate(b.get("KH", []))})
             env.update({f"kc[{i}]": v for i, v in enumerate(b.get("KC", []))})
-            env.update(PV)
+            env.update(pv)
             env["kerg"] = consts.get("kerg", 1.380658e-16)
             env["npar"] = sum(y[: proj.nspec])
             # gross magnitude of the terms that may cancel (the normal form has already cancelled them)
